@@ -6,7 +6,7 @@ the cast expressions).  From IEEE 1076.3 (numeric_std) and IEEE 1164:
            operands resized first (zero / sign extension);
            (vector, natural|integer) and reversed: length of the vector, the integer
            converted with to_unsigned / to_signed(., length)   [not representable: truncated
-           with a warning -> TypeError_ here: outside the documented domain]
+           with a warning -- legal VHDL, evaluated with the truncated integer]
   "*"      length L'length + R'length; (vector, integer): the integer converted to the
            vector's length first -> 2 * length
   "/"      length L'length, truncation toward zero; (vector, integer): integer converted to L'length
@@ -113,7 +113,9 @@ def _conv_int(sx, kind, w, k):
         half = P2(sym.to_int(w) - 1)
         ok = sym.And(k >= -half, k < half)
     if not sx.branch(ok):
-        raise TypeError_("integer operand not representable in the vector operand's length")
+        # numeric_std: TO_UNSIGNED / TO_SIGNED truncate (assertion of severity WARNING "vector truncated"); the
+        # expression is legal VHDL and has the value computed with the truncated integer
+        return sym.wrap_unsigned(k, w) if kind == "unsigned" else sym.wrap_signed(k, w)
     return k
 
 
